@@ -79,6 +79,18 @@ def run(tier='quick', seed=0, only=None, verbose=False):
     if only:
         jobs = [j for j in jobs if only in j['key']]
     tvjobs.run_tv_jobs(rep, jobs, verbose=verbose, fn=job_fn)
+    # Connectivity form: delayed + spread connections between populations (harness of C16, the spread kinds only)
+    from . import c16
+    mj = []
+    for kind in ('spread', 'spread2'):
+        for i in range(3 if tier == 'quick' else 12):
+            mj.append(dict(key=f"pop:{kind}:{seed}:{i}|population", kind=kind, seed=seed * 100 + i, build='population',
+                           vectorize=True, spec=None))
+    if only:
+        mj = [j for j in mj if only in j['key']]
+    for j in mj:
+        j['spec'] = c16.explicit_spec(c16.make_model(j['kind'], j['seed']))
+    tvjobs.run_tv_jobs(rep, mj, verbose=verbose, fn=c16.job_fn)
     return rep.finish(rule='program = circuit with (delay, spread) edges x vectorize x solver flag; obligations: every '
                            'auxiliary state is a first-order stage k*(prev - z) whose input is a model variable or another '
                            'stage (solver-proved), and every declared state variable\'s derivative equals the reference in '
